@@ -2,6 +2,7 @@ package specgen
 
 import (
 	"context"
+	"crypto/rand"
 	"io"
 	"net"
 	"sync"
@@ -92,7 +93,7 @@ func CaptureBlackhole(t *testing.T, spec *quic.QUICSpec, conf *quic.Config, dur 
 		defer w.Close()
 		w.Router.KeepData = true
 		w.Observe().InitialPNHint = pnHint(spec)
-		ct := &quic.Transport{Conn: w.ClientConn}
+		ct := &quic.Transport{Conn: w.ClientConn, ConnectionIDGenerator: ownGenerator()}
 		// no deferred ct.Close(): a panic inside Dial happens with the transport's mutex held, and a deferred
 		// Close would then block for ever instead of letting the panic surface
 		ctx, cancel := context.WithTimeout(context.Background(), dur)
@@ -162,7 +163,7 @@ func captureLive(t *testing.T, spec *quic.QUICSpec, conf *quic.Config, faults []
 			s.Close()
 			<-c.Context().Done()
 		}()
-		ct := &quic.Transport{Conn: w.ClientConn}
+		ct := &quic.Transport{Conn: w.ClientConn, ConnectionIDGenerator: ownGenerator()}
 		defer ct.Close()
 		if conf == nil {
 			conf = &quic.Config{DisablePathMTUDiscovery: true, MaxIdleTimeout: 20 * time.Second, HandshakeIdleTimeout: 10 * time.Second}
@@ -296,4 +297,26 @@ func CaptureOverlap(t *testing.T, spec *quic.QUICSpec, gap, dur time.Duration) [
 		ctB.Close()
 	}, nil)
 	return out
+}
+
+// OwnGenLen > 0 gives the client Transports of CaptureBlackhole / CaptureLive their own ConnectionIDGenerator of that
+// length (set by the caller around a capture; Desc.OwnGen carries it in a case).
+var OwnGenLen int
+
+type fixedLenGenerator struct{ n int }
+
+func (g fixedLenGenerator) GenerateConnectionID() (quic.ConnectionID, error) {
+	b := make([]byte, g.n)
+	if _, err := rand.Read(b); err != nil {
+		return quic.ConnectionID{}, err
+	}
+	return quic.ConnectionIDFromBytes(b), nil
+}
+func (g fixedLenGenerator) ConnectionIDLen() int { return g.n }
+
+func ownGenerator() quic.ConnectionIDGenerator {
+	if OwnGenLen <= 0 {
+		return nil
+	}
+	return fixedLenGenerator{OwnGenLen}
 }
